@@ -56,19 +56,21 @@ bt('BT03', ['C01', 'C02', 'C03', 'C04', 'C10'], 'clear the slot before appending
 bt('BT04', ['C03', 'C01', 'C02', 'C12'], 'clock advance written as an assignment',
    (E, "                self.global_time += full_step\n",
        "                self.global_time = self.global_time + full_step\n"))
-bt('BT05', ['C01', 'C05', 'C07'], 'tuple unpacking in the loop header of _send_updates',
-   (E, """        for update_tuple in update_tuples:
-            update, state = update_tuple
-            view_expire_update = self.apply_update(update.get(), state)
-""", """        for update, state in update_tuples:
-            view_expire_update = self.apply_update(update.get(), state)
-"""))
-bt('BT06', ['C01', 'C04', 'C05', 'C07'], 'fetch the update into a local before applying it (run_steps)',
-   (E, """            for update, store in deferred_updates:
-                view_expire_update = self.apply_update(update.get(), store)
-""", """            for update, store in deferred_updates:
-                fetched = update.get()
+bt('BT05', ['C01', 'C05', 'C07', 'C13'], 'results fetched in an explicit loop instead of a comprehension',
+   (E, """        fetched_updates = [
+            (update.get(), state) for update, state in update_tuples]
+
+        view_expire = False
+        for fetched, state in fetched_updates:""", """        fetched_updates = [
+            (deferred.get(), store) for deferred, store in update_tuples]
+
+        view_expire = False
+        for fetched, state in fetched_updates:"""))
+bt('BT06', ['C01', 'C04', 'C05', 'C07', 'C13'], 'renamed locals in the apply loop of run_steps',
+   (E, """            for fetched, store in fetched_updates:
                 view_expire_update = self.apply_update(fetched, store)
+""", """            for result, target in fetched_updates:
+                view_expire_update = self.apply_update(result, target)
 """))
 bt('BT07', ['C02', 'C03', 'C01'], 'future computed first, then truncated',
    (E, """                    if force_complete and \\
